@@ -25,18 +25,29 @@ class Fault(Exception):
     pass
 
 
+# "for filters that raise": WHAT a filter raises is the filter's business.  The kinds include the exception classes that queue and
+# pipe plumbing raises itself (a failed assert, EOFError, BrokenPipeError, another OSError), which must not be mistaken for plumbing.
+class FaultAssert(Fault, AssertionError): pass
+class FaultEOF(Fault, EOFError): pass
+class FaultPipe(Fault, BrokenPipeError): pass
+class FaultOS(Fault, FileNotFoundError): pass
+class FaultKey(Fault, KeyError): pass
+KINDS = [Fault, FaultAssert, FaultEOF, FaultOS, FaultPipe, FaultKey]
+PLAIN = [ValueError, AssertionError, EOFError, FileNotFoundError, BrokenPipeError, KeyError]
+
+
 class F:
     """The wrapped filter: identity on item ids, raising for the faulty ones."""
-    def __init__(self, bad=()): self.bad = set(bad)
+    def __init__(self, bad=(), kind=0): self.bad = set(bad); self.kind = kind
     def filter(self, x):
-        if x in self.bad: raise Fault(x)
+        if x in self.bad: raise KINDS[self.kind % len(KINDS)](x)
         return x
 
 
 class PidF:
-    def __init__(self, bad=()): self.bad = set(bad)
+    def __init__(self, bad=(), kind=0): self.bad = set(bad); self.kind = kind
     def filter(self, x):
-        if x in self.bad: raise ValueError("bad %d" % x)
+        if x in self.bad: raise PLAIN[self.kind % len(PLAIN)]("bad %d" % x)
         return (os.getpid(), x)
 
 
@@ -55,7 +66,7 @@ def run_virtual(policy, cfg, max_steps=20000):
     s = Sched(policy, max_steps=max_steps)
     vsched.S = s
     out = {"got": []}
-    mp = M.Multiprocessor(F(cfg["Faults"]), cfg["P"], cfg["Max"])
+    mp = M.Multiprocessor(F(cfg["Faults"], cfg.get("kind", 0)), cfg["P"], cfg["Max"])
     # private attributes are observed when they exist; -1 = not observable (the trace specification then skips that field).
     # Before the call has set them up the spec's initial values are logged (the attributes appear during filter()).
     started = {"v": False}
@@ -160,7 +171,7 @@ def configs(rng, tier):
                 fsets = [[]] + [[i] for i in range(1, N + 1)]
                 if tier != "quick": fsets += [[i, j] for i in range(1, N + 1) for j in range(i + 1, N + 1)]
                 for fs in fsets:
-                    cs.append(dict(P=P, Max=Max, N=N, Faults=fs))
+                    cs.append(dict(P=P, Max=Max, N=N, Faults=fs, kind=len(cs)))      # what is raised rotates through KINDS
                     if not fs and N >= 1:
                         for k in range(1, N + 1): cs.append(dict(P=P, Max=Max, N=N, Faults=[], abandon_after=k))
     return cs
@@ -218,8 +229,8 @@ sys.path.insert(0, %r)
 from harness.drivers.c08 import PidF
 from coba.pipes.multiprocessing import Multiprocessor
 if __name__ == '__main__':
-    P, Max, N, bad = json.loads(sys.argv[1])
-    m = Multiprocessor(PidF(bad), P, Max); got2 = []; exc2 = None
+    P, Max, N, bad, kind = json.loads(sys.argv[1])
+    m = Multiprocessor(PidF(bad, kind), P, Max); got2 = []; exc2 = None
     try:
         got = list(m.filter(list(range(1, N + 1)))); exc = None
     except Exception as e:
@@ -231,9 +242,9 @@ if __name__ == '__main__':
     print(json.dumps(dict(got=got, exc=exc, got2=got2, exc2=exc2)))
 """ % os.path.dirname(os.path.dirname(os.path.dirname(os.path.abspath(__file__))))
     script = os.path.join(ctx.scratch, "real_spawn.py"); open(script, "w").write(code)
-    for (P, Max, N, bad) in real:
+    for ri, (P, Max, N, bad) in enumerate(real):
         try:
-            p = subprocess.run([sys.executable, "-W", "ignore", script, json.dumps([P, Max, N, bad])], capture_output=True, text=True, timeout=600)
+            p = subprocess.run([sys.executable, "-W", "ignore", script, json.dumps([P, Max, N, bad, ri + 1])], capture_output=True, text=True, timeout=600)
             d = json.loads(p.stdout.strip().splitlines()[-1])
         except subprocess.TimeoutExpired:
             ctx.violation("real-hang", "real spawn run did not terminate within 600 s", dict(P=P, Max=Max, N=N, bad=bad)); continue
